@@ -69,6 +69,23 @@ func VerifHarness_C09_Native() {
 		invalid, _ = json.Marshal(&q)
 	}
 	h := proveHandler{provingSystem: ps, mode: mode}
+	if mode == DeletionMode {
+		// padding slots (index with the skip bit) whose merkle proof has the wrong length are still a dimension error
+		var dp prover.DeletionParameters
+		json.Unmarshal(good, &dp)
+		for _, n := range []int{depth - 1, depth + 1} {
+			q := dp
+			q.DeletionIndices = []uint32{uint32(1 << depth)}
+			q.MerkleProofs = [][]big.Int{make([]big.Int, n)}
+			b, _ := json.Marshal(&q)
+			c, body := verifDo(h, "POST", string(b))
+			verifAssert(c == 400 && verifCode(body) == "proving_error", "wrong dimensions or unprovable batch: 400 proving_error")
+		}
+	}
+	for i := 0; i < 6; i++ { // repeated dimension errors must not exhaust anything a later valid request needs
+		c, body := verifDo(h, "POST", string(wrongDims))
+		verifAssert(c == 400 && verifCode(body) == "proving_error", "wrong dimensions or unprovable batch: 400 proving_error")
+	}
 	for _, m := range []string{"GET", "PUT", "DELETE", "post"} {
 		c, b := verifDo(h, m, string(good))
 		verifAssert(c == 405 && b == "", "method other than POST: 405 and no body")
